@@ -1,11 +1,12 @@
 """C35 — the SQL parser never crashes and ignores keyword case."""
 import json
+import os
 import re
 
 from checks import lib
 
 PROPERTY = "C35"
-LEAN_MODULES = ["KafVerif.Props.C35"]
+LEAN_MODULES = ["KafVerif.Props.C35", "KafVerif.Gen.C35Slices"]
 OBLIGATIONS = [
     "KafVerif.C35.asciiLower_length",
     "KafVerif.C35.slices_in_range",
@@ -14,8 +15,10 @@ OBLIGATIONS = [
     "KafVerif.C35.old_lowering_panics",
     "KafVerif.C35.case_insensitive_partial",
     "KafVerif.C35.case_insensitive_topics",
+    "KafVerif.C35.slices_provenance",        # regenerated from parser.go on every run (go/ast extractor)
 ]
 BUILDS = {"h": ("sql", "./cmd/verif_c35", ["C35"])}
+ENGINES = ["lean-kafverif", "go-overlay-harness", "ast-extract"]
 TECHNIQUE = ("Lean 4 totality proof over a byte-level model of parser.go (every slice expression with Go's bounds rule) "
              "+ Go/Lean differential correspondence of the parsed fields + crash and keyword-case monitors on the real Parse")
 LEVEL_TEXT = ("proof: slices_in_range / parse_never_panics — for every byte string and every byte-length-preserving "
@@ -51,6 +54,166 @@ KW_CASE = ["select", "from", "where", "and", "join", "left", "on", "group", "by"
 SAFE_NONASCII = ["é", "ß", "日", "ⱥ", "ñ", "ω", "ж", "𝛑", "😀"]       # no case mapping to another rune, not white space
 HOSTILE = ["Ⱥ", "İ", "K", "ſ", "É", "ẞ", "Ǆ", "\u0085", " ", " ", " ", "ǅ", "Ω"]
 WS = [" ", " ", " ", "  ", "\t", "\n", " \r\n", "\x0b", "\x0c"]
+
+
+PARSER_GO = "addons/processors/sql-processor/internal/sql/parser.go"
+
+
+def extract_slices(ck):
+    """Run the go/ast extractor on the CURRENT parser.go; returns the JSON table."""
+    import subprocess
+    src = os.path.join(lib.REPO, PARSER_GO)
+    p = subprocess.run(["go", "run", "main.go", "-f", src], cwd=os.path.join(lib.HARNESS, "C35", "extract"),
+                       env=lib.go_env(), capture_output=True, text=True)
+    if p.returncode != 0:
+        raise RuntimeError("extractor failed: " + p.stderr[-1500:])
+    return json.loads(p.stdout)
+
+
+def lean_slices(table):
+    """The Lean source of lean/KafVerif/Gen/C35Slices.lean for an extracted table."""
+    fns = {f["name"]: i for i, f in enumerate(table["funcs"])}
+    offs, fresh = {}, {}
+
+    def off(o):
+        return offs.setdefault(o, len(offs))
+
+    def root(fn, r):
+        if r.startswith("P") and r[1:].isdigit():
+            return ".param %s" % r[1:]
+        return ".fresh %d" % fresh.setdefault((fn, r), len(fresh))
+
+    out = ["import KafVerif.Model.SqlSlices",
+           "/-! GENERATED by checks/C35.py from %s (harness/C35/extract) — do not edit. -/" % PARSER_GO,
+           "namespace KafVerif.Gen.C35Slices", "open KafVerif.SqlSlices", ""]
+    out.append("-- functions: " + ", ".join("%d=%s" % (i, n) for n, i in sorted(fns.items(), key=lambda x: x[1])))
+    rows = []
+    for r in table["slices"] or []:
+        bs = ", ".join("⟨%s, %d⟩" % (root(r["fn"], b["root"]), off(b["off"])) for b in (r["bounds"] or []))
+        rows.append("  -- %s:%d  %s\n  ⟨%d, %d, %s, %d, [%s]⟩" % (r["fn"], r["line"], r["expr"].replace("\n", " ")[:90], fns[r["fn"]], r["line"],
+                                                                 root(r["fn"], r["root"]), off(r["off"]), bs))
+    out.append("def slices : List SliceRow := [\n" + ",\n".join(rows) + "]\n")
+    crows = []
+    for c in table["calls"] or []:
+        args = ", ".join("none" if a is None else "some ⟨%s, %d⟩" % (root(c["caller"], a["root"]), off(a["off"])) for a in (c["args"] or []))
+        crows.append("  -- %s -> %s (line %d)\n  ⟨%d, %d, [%s]⟩" % (c["caller"], c["callee"], c["line"], fns[c["caller"]], fns[c["callee"]], args))
+    out.append("def calls : List CallRow := [\n" + ",\n".join(crows) + "]\n")
+    out.append("-- offset expressions: " + "; ".join("%d=%s" % (i, o) for o, i in sorted(offs.items(), key=lambda x: x[1])))
+    out.append("-- strings.ToLower / ToUpper call sites: " + "; ".join("%s:%d %s" % (l["fn"], l["line"], l["call"]) for l in (table["lowerings"] or [])))
+    out += ["", "end KafVerif.Gen.C35Slices", "",
+            "set_option maxRecDepth 100000 in",
+            "/-- **C35 (generated).** Every slice / index expression of the current parser.go indexes the sequence its bounds",
+            "were computed on, or a byte-length-equal lowering of it (same root, same offset; parameters aligned at every call site). -/",
+            "theorem KafVerif.C35.slices_provenance :",
+            "    KafVerif.SqlSlices.checkAll KafVerif.Gen.C35Slices.slices KafVerif.Gen.C35Slices.calls = true := by decide", ""]
+    return "\n".join(out)
+
+
+def failing_rows(table):
+    """Python twin of SqlSlices.rowOk (only used to NAME the offending expressions in the report)."""
+    calls = table["calls"] or []
+
+    def aligned_params(f, i, j, fuel):
+        if i == j:
+            return True
+        if fuel == 0:
+            return False
+        cs = [c for c in calls if c["callee"] == f]
+        if not cs:
+            return False
+        for c in cs:
+            args = c["args"] or []
+            if i >= len(args) or j >= len(args) or args[i] is None or args[j] is None:
+                return False
+            a, b = args[i], args[j]
+            if a["off"] != b["off"] or not roots_aligned(c["caller"], a["root"], b["root"], fuel - 1):
+                return False
+        return True
+
+    def roots_aligned(f, r1, r2, fuel):
+        if r1 == r2:
+            return True
+        if r1[0] == "P" and r2[0] == "P" and r1[1:].isdigit() and r2[1:].isdigit():
+            return aligned_params(f, int(r1[1:]), int(r2[1:]), fuel)
+        return False
+    bad = []
+    for r in table["slices"] or []:
+        for b in r["bounds"] or []:
+            if b["off"] != r["off"] or not roots_aligned(r["fn"], b["root"], r["root"], 8):
+                bad.append("%s:%d  %s  indexes (%s @ %s) with a value computed on (%s @ %s)" % (
+                    r["fn"], r["line"], r["expr"], r["root"], r["off"], b["root"], b["off"]))
+                break
+    return bad
+
+
+def generate(ck):
+    table = extract_slices(ck)
+    ck.slice_table = table
+    os.makedirs(os.path.join(lib.LEAN, "KafVerif", "Gen"), exist_ok=True)
+    fn = os.path.join(lib.LEAN, "KafVerif", "Gen", "C35Slices.lean")
+    new = lean_slices(table)
+    if not os.path.exists(fn) or open(fn).read() != new:
+        tmp = fn + ".tmp%d" % os.getpid()
+        open(tmp, "w").write(new)
+        os.replace(tmp, fn)
+    ck.count("slice_rows", len(table["slices"] or []))
+    ck.count("call_rows", len(table["calls"] or []))
+    ck.slice_failures = failing_rows(table)
+
+
+GO_LOWER = {"İ": "i", "\u212a": "k", "Ⱥ": "ⱥ", "Ⱦ": "ⱦ", "ẞ": "ß", "É": "é", "Ω": "ω", "Ǆ": "ǆ", "ǅ": "ǆ"}
+LENGTH_CHANGING = ["Ⱥ", "Ⱦ", "İ", "\u212a", "ẞ"]      # strings.ToLower: 2->3, 2->3, 2->1, 3->1, 3->2 bytes
+
+
+def go_lower(s):
+    return "".join(GO_LOWER.get(c, c.lower() if len(c.lower()) == 1 else c) for c in s)
+
+
+def ascii_lower(s):
+    return "".join(c.lower() if ord(c) < 128 else c for c in s)
+
+
+def clause_last_stream():
+    """Every clause of the grammar as the LAST clause of the statement, carrying a rune whose lower-case form has a
+    different byte length, at the start / middle / end of the clause text.  Returns [(query, {json path: expected})]."""
+    out = []
+    for x in LENGTH_CHANGING:
+        for ident in (x + "abc", "ab" + x + "c", "abc" + x, x * 3 + "_col", x):
+            lo, alo = go_lower(ident), ascii_lower(ident)
+            T = [
+                ("select * from %s" % ident, {"Topic": alo}),
+                ("select * from t %s" % ident, {"Topic": "t", "TopicAlias": alo}),
+                ("select * from a join %s" % ident, {"JoinTopic": alo}),
+                ("select * from a join b %s" % ident, {"JoinTopic": "b", "JoinAlias": alo}),
+                ("select * from a o join b p on o._key = p._key within %s" % ident, {"TimeWindow": alo, "JoinTopic": "b"}),
+                ("select x from t group by %s" % ident, {"GroupBy": [lo], "Topic": "t"}),
+                ("select x from t group by a, %s" % ident, {"GroupBy": ["a", lo]}),
+                ("select * from t order by %s" % ident, {"OrderBy": lo, "OrderDesc": False, "Topic": "t"}),
+                ("select * from t order by %s desc" % ident, {"OrderBy": lo, "OrderDesc": True}),
+                ("select * from t group by g order by %s" % ident, {"OrderBy": lo, "GroupBy": ["g"]}),
+                ("select * from t order by _ts desc group by %s" % ident, {"GroupBy": [lo], "OrderBy": "_ts", "OrderDesc": True}),
+                ("select * from t limit 5 last %s" % ident, {"Last": alo, "Limit": "5"}),
+                ("select * from t tail %s" % ident, {"Tail": alo}),
+                ("select %s from t" % ident, {"Select.0.Raw": ident, "Topic": "t"}),
+                ("select a, %s from t order by %s" % (ident, ident), {"Select.1.Raw": ident, "OrderBy": lo}),
+                ("explain select * from t order by %s" % ident, {"Explain.OrderBy": lo}),
+                ("show partitions from %s" % ident, {"Topic": alo}),
+                ("describe %s" % ident, {"Topic": alo}),
+                ("%s select * from t" % ident, None),                      # must be an error, not a crash
+                ("select * from t where _offset >= 1 scan %s" % ident, {"Topic": "t"}),
+            ]
+            for q, exp in T:
+                out.append((q, exp))
+                out.append((q.replace("select", "SELECT").replace("order by", "ORDER BY").replace("group by", "Group By") + " ;", exp))
+    return out
+
+
+def json_get(obj, path):
+    for part in path.split("."):
+        if obj is None:
+            return None
+        obj = obj[int(part)] if part.isdigit() else obj.get(part)
+    return obj
 
 
 def rand_case(rng, w):
@@ -335,7 +498,8 @@ def run(ck):
             hostile.append(render(r, toks, case=lambda w: rand_case(r, w)).encode())
         else:
             hostile.append(rng.bytes(rng.range(0, 60)))
-    allq = corr + variants + hostile
+    clause = clause_last_stream()
+    allq = corr + variants + hostile + [q.encode() for q, _ in clause]
     lines, fn, crash = run_go(ck, binary, allq, "all")
     if crash:
         ck.broke("implementation harness did not answer every line", crash)
@@ -352,6 +516,30 @@ def run(ck):
             ck.violation("parse-panics", "sql.Parse panicked on %r" % small,
                          {"queries_hex": [small.hex()], "query": small.decode("utf8", "replace"),
                           "expected": "a query or an error", "actual": "panic"})
+    # ---- monitor 1b: clause texts survive (no silent mis-slicing by length-changing runes)
+    cbase = len(corr) + len(variants) + len(hostile)
+    for (q, exp), (c, full) in zip(clause, impl[cbase:]):
+        if c == "panic":
+            continue
+        if exp is None:
+            continue
+        got = json.loads(full) if full else None
+        bad = None
+        if got is None:
+            bad = "Parse returned an error"
+        else:
+            for path, want in exp.items():
+                if json_get(got, path) != want:
+                    bad = "%s = %r, expected %r" % (path, json_get(got, path), want)
+                    break
+        if bad:
+            ck.violation("clause-text-corrupted", "sql.Parse(%r): %s" % (q, bad),
+                         {"queries_hex": [q.encode().hex()], "query": q, "expected": exp, "actual": bad})
+    ck.count("clause_last_queries", len(clause))
+    # ---- generated slice-provenance table (go/ast): name the offending expressions
+    if getattr(ck, "slice_failures", None):
+        ck.broke("slice provenance table regenerated from parser.go (KafVerif.C35.slices_provenance)",
+                 "index computed on a different string than the one sliced:\n" + "\n".join(ck.slice_failures))
     # ---- monitor 2: keyword case does not matter
     base = len(corr)
     for (a, n) in groups:
